@@ -121,8 +121,11 @@ func runC03(c *Cfg) {
 	nr := c.Pick(5000, 200000)
 	parallel(c, nr, func(i int) {
 		rg := c.Rng("c03rand", i)
-		sc := scen.GenFlowScenario(rg, scen.GenOpts{MaxNodes: 12, MaxActions: 5, MaxDepth: 3, Failures: i%2 == 0, MaxVisits: 4})
+		sc := scen.GenFlowScenario(rg, scen.GenOpts{MaxNodes: 12, MaxActions: 5, MaxDepth: 3, Failures: i%2 == 0, MaxVisits: 4, Batch: true})
 		outs, mrs := judgeFor(c, "C03", "random", sc)
+		if len(sc.Rewire) > 0 {
+			r.Count("random.scenarios_with_connect_between_runs", 1)
+		}
 		r.Count("random.flows", 1)
 		tot := 0
 		for k := range outs {
@@ -163,8 +166,9 @@ func runC04(c *Cfg) {
 	nb := c.Pick(300, 5000)
 	parallel(c, nb, func(i int) {
 		rg := c.Rng("c04", i)
-		base := scen.GenFlowScenario(rg, scen.GenOpts{MaxNodes: 8, MaxActions: 4, MaxDepth: 4, Failures: true, MaxVisits: 3, Zoo: i%5 == 0})
+		base := scen.GenFlowScenario(rg, scen.GenOpts{MaxNodes: 8, MaxActions: 4, MaxDepth: 4, Failures: true, MaxVisits: 3, Zoo: i%5 == 0, Batch: true})
 		base.Runs = 1
+		base.Rewire = nil
 		if i%7 == 0 { // single node runs as well
 			base = &scen.Scenario{Nodes: []scen.NodeSpec{scen.GenNode(rg, scen.GenOpts{Failures: true, MaxVisits: 1}, 2)}, Root: 0, Runs: 1}
 		}
